@@ -162,8 +162,23 @@ def run(tier, seed, replay):
             nontrivial.add(json.dumps(want))
             if len(samples) < 4 and len(nontrivial) % 60 == 1:
                 samples.append({"family": fam, "config": cfggen.to_yaml(cfg), "dangling": want})
+    # ---- run-time corollary: an accepted container never fails with 'does not exist' for a reference written in the configuration
+    from . import rtcommon
+    rs, hs, gs = rtcommon.gen_cases(seed, "c06rt", 20 if tier == "quick" else 300, weights={"todo": 0.15}, hist_len=0)
+    for k, sp in enumerate(rs):
+        hs[k] = [{"op": "get", "name": n} for n in sp["cfg"]["services"]] + [{"op": "param", "name": p} for p in sp["cfg"]["parameters"]] + [{"op": "circular", "name": ""}]
+    robs, rl, ml, racc = rtcommon.run_histories(out, tooldir, env, rs, hs, "C06 run-time corollary", "C06")
+    rstat = {"programs": len(racc), "operations": 0}
+    for k in racc:
+        for o, line in zip(hs[k], rl[k]):
+            rstat["operations"] += 1
+            if "does not exist" in line:
+                out.violation("runtime-does-not-exist", "an accepted container fails at run time with 'does not exist': %s %s -> %s" % (o["op"], o["name"], line[:200]), dict(common.slim(rs[k], robs[k]), history=hs[k], results=rl[k]))
+            if o["op"] == "circular" and line != "N":
+                out.violation("runtime-circular", "an accepted container reports circular dependencies: %s" % line[:200], dict(common.slim(rs[k], robs[k]), history=hs[k]))
+    dist["runtime"] = rstat
     out.coverage.update({
-        "evaluations": len(specs), "distinct_nontrivial": len(nontrivial),
+        "evaluations": len(specs) + sum(len(h) for h in hs), "distinct_nontrivial": len(nontrivial), "programs": len(racc),
         "rule": "every reference position (parameter pattern; constructor argument; call argument; field; decorator argument) x pattern shapes (single, embedded, repeated, after %%, before %%, next to a function call) x names (declared, todo-declared, undeclared, declared only in the other namespace, look-alikes); @service references in every position; random combinations with declarations removed; non-trivial = at least one dangling reference; distinct by the dangling set",
         "distribution": dist, "samples": samples or [{"note": "none"}],
     })
